@@ -110,6 +110,11 @@ def run(tier, seed, rng):
             for sbl in (None, 2, 3):
                 for wrap in ('seq', 'opt'):
                     cfgs.append(('marker', m, incl, sbl, wrap))
+    # bytes markers made of regular-expression metacharacters: a bytes marker is searched LITERALLY
+    METAS = [b'.', b'|', b'$', b'a?', b'.*', b'a|b', b'^a', b'\\', b'(', b'[a]', b'a+', b'\\d']
+    for m in METAS:
+        for incl in (False, True):
+            cfgs.append(('marker', m, incl, None))
     rx = [[('plus', 97)], [('lit', b'ab'), ('lit', b'a')], [('lit', b'b'), ('lit', b'ab')], [('lit', b'aa'), ('plus', 98)],
           [('plus', 98), ('lit', b'ba')], [('lit', b'aba')]]
     for alts in rx:
@@ -134,7 +139,11 @@ def run(tier, seed, rng):
                             g.add_unpack(0, raw, off)
                             meta.append((cfg, raw, off, n))
         else:
-            for raw in inputs:
+            raws = inputs
+            if cfg[0] == 'marker' and cfg[1] in METAS:
+                alpha2 = sorted(set(cfg[1]) | {97, 100})
+                raws = [bytes(t) for L in range(4) for t in itertools.product(alpha2, repeat=L)] + [b'a' + cfg[1] + b'a', cfg[1] + cfg[1], b'ad' + cfg[1]]
+            for raw in raws:
                 for off in (0, 1):
                     if off and len(raw) > maxlen - 1:
                         continue
@@ -146,7 +155,10 @@ def run(tier, seed, rng):
     rt = [r for r in records if r['kind'] == 'roundtrip']
     failures = []
     dist = dict(ok=0, err=0, marker=0, regex=0, sized=0, eos=0, straddles_window=0, empty_value=0)
-    assert len(rt) == len(meta)
+    if len(rt) != len(meta):
+        # some class could not even be declared (reported through the correspondence: the model declares it): nothing to line up
+        return dict(evaluations=len(records), distinct_nontrivial=0, exhaustive=False, rule='class definitions failed', samples=[],
+                    distribution=dist, failures=failures, disagreements=disagreements)
     for r, (cfg, raw, off, n) in zip(rt, meta):
         o = r['outcome']
         dist[cfg[0]] += 1
